@@ -12,6 +12,58 @@ CHECKS = {
  "C02": dict(engine="Scheduler", technique="TLC exhaustive exploration of spec/Scheduler.tla: terminal states per case compared with the declarative rule, deadlock + fairness-based termination; real Controller runs trace-validated and their terminal states required to be reachable in the specification",
              text="Confluence and termination are decided by exhaustive enumeration of interleavings per (shape, fault sequence) on the model; the binding runs the real Controller under seeded schedules, validates every run against the specification, detects runs that never reach quiescence and checks each real terminal state against the set TLC computed and against the documented rule.",
              note=SCHED_NOTE, ref="4/C02"),
+ "C03": dict(engine="Replicate", technique="TLC model checking of spec/Replicate.tla (declarative replication region = operational propagation, expansion invariants); every expanded state replayed into FlowIRConcrete.replicate and WorkflowGraph.graphFromFlowIR(primitive=False) and compared node by node",
+             text="Exhaustive for up to 3 (thorough 4) components over adversarial name alphabets (a/ba/ab, a/a0/a1, dotted/dashed, same name in two stages), replica counts 1-3 and 11 (literal or via a variable at global/stage/component scope), both spellings, paths, methods, argument styles and document orders; the spec's Expansion is the oracle for nodes, edges, references, argument tokens and the replica variable.",
+             note="Trusted: TLC and the harness reference parser. Outside the family: an aggregating component that also replicates, replicate 0, DoWhile placeholders, :copyout mentioned in arguments; big slices go through the graph path for every k-th case only.",
+             ref="4/C03"),
+ "C04": dict(engine="Layering", technique="TLC model checking of spec/Layering.tla (every subset of definition layers x decoys x platform, chains, typed options); every state rendered to FlowIR + user variable files and resolved by the real FlowIRExperimentConfiguration/FlowIRConcrete for active x queried platform",
+             text="TLC proves Fold = Top (sequential override in the documented order equals the declarative maximum), no decoy value in any result, no reference left and decoy-irrelevance on the model; the binding executes all 5.4k (thorough 48k) states x4 plus the typed-option catalogue on the real resolver and loader with the spec as oracle (values, Python types, error classes).",
+             note="Trusted: TLC and the rendering bijection; same-scope conflicts between two user files are C15's subject; chains <= 4; built-in values are read from the code and only their rank is checked.",
+             ref="4/C04"),
+ "C08": dict(engine="ConfigCache", technique="TLC model checking of an explicit cache-protocol spec (spec/ConfigCache.tla: description, cache, handed copy; one action per configuration-interface call), bound both ways: edge cover + -simulate behaviours replayed on live FlowIRConcrete/FlowIRExperimentConfiguration with a from-scratch real-code oracle after every call, and recorded histories followed by TLC (ConfigCache_trace.tla)",
+             text="For every history of <= 3 calls (exhaustive) and sampled histories up to 60 calls over 16 mutator kinds x call paths x 7 query flavours x 2 platforms x 2 components in 6 name worlds, every query equals both the spec's Resolve(D) and a brand-new FlowIRConcrete(raw()), every cache entry is coherent after every call, and scribbling over returned dicts changes neither the description nor the cache.",
+             note="Trusted: TLC. Per-component invalidation (Hits) is probed from the real code at run time; spec-versus-code drift without a violation is exit 2. One variable, two options, two platforms, no override layer, no DoWhile documents.",
+             ref="4/C08"),
+ "C09": dict(engine="References", technique="TLC model checking of spec/References.tla (token-level grammar of data references and the life cycle authored->written->read->expanded->re-expanded); every emitted (reference, consumer stage, package context) case executed on the real parse/print/expand/classify functions, Manifest.top_level_folders and FlowIRConcrete.validate",
+             text="TLC exhaustively checks round trip, agreement of relative and absolute spellings, idempotent expansion and classification-as-stated over adversarial names (dots, dashes, loop prefixes, stage and folder look-alikes), nested files and globs, all methods, stages none/0/1/12 and contexts with nested manifest keys, application dependencies and known-component sets; all 31.8k quick / 149k thorough emitted cases run on the real API with the spec as oracle.",
+             note="Trusted: TLC and the token rendering (a string is the concatenation of its tokens). Classification compared only for direct and known-component references; names equal to package folders, leading-zero stages and uid escaping are outside the grammar.",
+             ref="4/C09"),
+ "C10": dict(engine="Subst", technique="TLC model checking of spec/Subst.tla (exact one-pass substitution against the named deviation 'sequential str.replace'); every resolved TLC state becomes a consumer component of a real instantiated experiment and resolveArguments()/checkDataReferences() are compared with the spec",
+             text="TLC proves Exact equals the structural expectation and is permutation-independent for <= 3 references over names that contain one another or are equal across stages, all usages, three command-line styles, unused/undeclared faults and values that look like references; 1.7k quick / 14.9k thorough cases are executed on real experiments.",
+             note="Trusted: TLC and the letter-level token model. Producers are not executed (the harness writes their out.txt); :loopref/:loopoutput and direct references are not explored.",
+             ref="4/C10"),
+ "C11": dict(engine="Validate", technique="TLC model checking of spec/Validate.tla (declarative Valid = operational Verdict on every single-fault mutant of the Replicate.tla workflow family); every mutant loaded through graphFromFlowIR and, sampled, through a package directory with validateExperiment, under an alarm",
+             text="Every fault kind (drop, rename, restage, cycle, duplicate, unknown key, wrong type, removed variable) at every position of every base workflow of up to 3 (thorough 4) components: accept implies DAG, unique ids, resolvable references and resolvable configuration; reject implies ExperimentInvalidConfigurationError (a typed FlowIR error on the in-memory path); validity-preserving mutations must load; a hang is a violation.",
+             note="Trusted: TLC. Wrongly typed values are unconvertible ones; executables are not checked; base names are well separated so replication naming defects stay out of this family.",
+             ref="4/C11"),
+ "C12": dict(engine="Restart", technique="TLC on spec/Restart.tla (design invariants, action properties, witness runs per named deviation); exhaustive edge cover of the spec's state graph replayed on the real Controller/ComponentState/Engine/RepeatingEngine; seeded random traces of the real code validated by TLC against Restart_trace.tla",
+             text="For every configuration of the family (maxRestarts, hook file named/unset/''/missing, restartHookOn sets, backend, engine kind, stable/unstable system) and every (Engine.restarts, resubmissions, exit reason, hook answer) the real restart decision, counters, task starts and final state equal the specification, whose invariants are the C12 statement.",
+             note="Trusted: TLC; task launch is replaced by a counter and rx emissions are not delivered (harness/world_c12.py). Budgets above 3 and hook behaviours beyond 17 classes are not explored.",
+             ref="4/C12"),
+ "C13": dict(engine="Repeating", technique="TLC model checking of spec/Repeating.tla (poll loop + EngineTaskController + environment with half-second event placement); every terminated TLC behaviour replayed in lock-step on the real RepeatingEngine/CreateMonitor under a virtual clock, plus seeded random schedules trace-validated by TLC (Repeating_trace.tla)",
+             text="TLC checks the three clauses as invariants plus producersDone ~> dead exhaustively for small intervals, retries, kill delays, producer kinds and durations; the binding executes every emitted behaviour (~2k quick, ~27k thorough) on the real engine and validates 250 (quick) / 3000 (thorough) random runs code->spec.",
+             note="Trusted: TLC and the lock-step world (rx lanes, gated monitor thread, virtual datetime, fake task; harness/world_c13.py). Producer output checks run on real files with controlled mtimes. Task durations are whole seconds; output predating run() and raising task generators are out of scope.",
+             ref="4/C13"),
+ "C14": dict(engine="AtomicFile", technique="TLC model checking of spec/AtomicFile.tla (temp-file-then-rename protocol under I/O errors and crashes, fidelity over update histories); file-system operations of the 5 real writers recorded and validated by TLC against AtomicFile_trace.tla; every crash and I/O-error point enumerated by TLC realised on the real code and read back with the real loaders",
+             text="TLC exhaustively checks Atomic/OldOrNew/CommitIsAtomic/Fidelity for <= 2 (thorough 3) updates of 2 files with every operation failing or the process dying; the binding validates the recorded operation traces of Status.update, OutputAgent.updateLogs, try_generate_status_details, store_unreplicated_flowir_to_disk and _generate_instance_files, realises every crash/I/O-error boundary and ~4.6k (thorough ~22k) value-class histories.",
+             note="Trusted: TLC, the operation recorder harness/fsrec.py (writes flushed one by one; fsync/rename durability not modelled), one representative string per value class.",
+             ref="4/C14"),
+ "C15": dict(engine="UserVars", technique="TLC model checking of spec/UserVars.tla (layering loop, last-definer-wins, order-free oracle); every emitted (shapes, list) case plus 5 rich packages loaded in separate processes with different PYTHONHASHSEED, shuffled document keys and shuffled directory listings; compared with the spec and byte-wise across processes",
+             text="Exhaustive over lists of length <= 3 with repetitions over 3 files and 4 shapes in quick (7 in thorough), through 2-5 entry points, in 4 processes in quick (8 in thorough); the rich packages (replication, aggregation, platforms, DSL with duplicate step names) are dumped (nodes, edges, configurations, environments, memoization hashes) and compared across processes.",
+             note="TLC cannot vary a hash seed: its role is the order-free oracle and the enumeration of file orders; nondeterminism is found only if it shows among the seeds used.",
+             ref="4/C15"),
+ "C16": dict(engine="Memo", technique="TLC model checking of spec/Memo.tla (pair generator: base worlds x single-aspect perturbations, two independent formulations of the hash identity); every emitted pair instantiated as two real experiments and the strong and fuzzy hash of every chain component compared",
+             text="TLC checks that the constructive identities Strong/Fuzzy agree with the aspect classification taken from the property on all pairs (chain <= 3); the binding executes 1033 pairs in quick and 7653 in thorough on the real ComponentSpecification, requiring equal <=> equal and None <=> undefined.",
+             note="Trusted: TLC and the rendering of worlds to FlowIR and files. The content of a directory reference is identified with the producer's hash, as the code does; one perturbation per pair.",
+             ref="4/C16"),
+ "C17": dict(engine="Env", technique="TLC model checking of spec/Env.tla (selection x spelling x platform x interpreter x key subsets of named/default environments on default/p1); every state executed through WorkflowGraph.environmentForNode under a controlled os.environ",
+             text="NoLeak, error-iff-undefined, platform-over-default, own-before-launch and irrelevance of foreign environments are checked on every state; 13k (thorough 51k) real calls are compared by dictionary equality.",
+             note="Trusted: TLC. Values reference other variables at depth 1 plus the PATH idiom; system variables and own keys are disjoint; expansion modelled as the two single passes the property states.",
+             ref="4/C17"),
+ "C18": dict(engine="Confine", technique="TLC model checking of spec/Confine.tla (POSIX path-resolution model of tar extraction, manifest deployment and staging sequences; the specified guard confines, the old prefix guard is refuted); every emitted input built for real and run through StageReference, Job.stageIn and expandPackageToDirectory with a file-system diff of everything outside the target",
+             text="Confined/NoOverRejection/RunAgrees checked exhaustively for archives of <= 2 members (file/dir/symlink/hardlink, names over {a, b, .., absolute}), 3-member families, manifests of <= 2 entries and staging sequences of <= 2 (thorough 3) operations; 4.7k (thorough 31.7k) inputs executed on the real code.",
+             note="Trusted: TLC and the sandbox diff (type, mode, size, mtime, inode, link target), nested 19 directories deep inside the scratch dir; permissions, devices and pax headers are not modelled.",
+             ref="4/C18"),
  "C05": dict(engine="DoWhile", technique="TLC model checking of spec/DoWhile.tla (document family x unrolling state machine, k <= 12 / 21); every reachable state replayed on the real WorkflowGraph after each instantiate_dowhile_next_iteration call",
              text="TLC checks all C05 clauses (instances 0..k, loop-carried inputs from i-1 without stage drift, outside references to the numerically highest iteration, aggregate order, condition of iteration k) for 173 document shapes up to 12 (thorough 21) iterations; the binding unrolls each shape on a real instance and compares wiring, placeholders, resolve() of :ref/:output/:loopref/:loopoutput, producers and loop state with the spec after every call.",
              note="Trusted: TLC. Looped instances are not executed (the harness writes their stdout); edges into outside consumers are only bounded; quick unrolls part of the shapes 3 times only; at most 2 looped components, no nested loops.",
